@@ -51,7 +51,10 @@ func (f *Subseq) Call(s *slip.Scope, args slip.List, depth int) (result slip.Obj
 	start, end, seq := f.getArgs(s, args, depth)
 	switch ta := seq.(type) {
 	case slip.List:
-		result = ta[start:end]
+		// subseq always allocates a new sequence (no shared structure)
+		list := make(slip.List, end-start)
+		copy(list, ta[start:end])
+		result = list
 	case slip.String:
 		ra := []rune(ta)
 		result = slip.String(ra[start:end])
